@@ -25,7 +25,7 @@ from .rsreplay import NativeRunner
 
 PROP = 'C17'
 QUOTAS = {
-    'quick': {'cheap': 2, 'medium': 2, 'heavy': 0, 'F1:cheap': 8, 'F2:medium': 6, 'F7:cheap': 3, 'R:cheap': 0, 'R:medium': 0},
+    'quick': {'cheap': 1, 'medium': 1, 'heavy': 0, 'F1:cheap': 8, 'F2:medium': 5, 'F7:cheap': 2, 'R:cheap': 0, 'R:medium': 0},
     'thorough': {'cheap': 60, 'medium': 40, 'heavy': 4, 'F1:cheap': 200, 'F2:medium': 60, 'F7:cheap': 12},
 }
 
@@ -213,6 +213,8 @@ def main(tier, seed):
     items, info = kcheck.gather(tier, seed, lambda mdl, u, t, d: ['c03'] if d.id.endswith('_le') else [], QUOTAS[tier],
                                 out=out)
     items = [it for it in items if it.unit.desc_id.split('#')[0].endswith('_le')]
+    if tier == 'quick':
+        items = [it for it in items if it.cls != 'heavy'][:32]
     by_id = {d.id: d for d in corpus.corpus(tier, seed, backend='rust')}
     twins = []
     twin_of = {}
